@@ -524,6 +524,13 @@ fn classify(
                 stats.evaluations += 1;
                 stats.inconclusive += 1;
             }
+            if let Ok(path) = std::env::var("VP_TRIAGE") {
+                use std::fs::OpenOptions;
+                let rec = json!({"sig": "TIMEOUT", "msg": "", "case": case});
+                if let Ok(mut f) = OpenOptions::new().create(true).append(true).open(path) {
+                    let _ = f.write_all(format!("{}\n", rec).as_bytes());
+                }
+            }
             None
         }
         WorkerReply::Died(d) => {
